@@ -135,7 +135,7 @@ def rule_step(ctx, repo):
     ok = e is not None
     # --- scaling pair
     if ok:
-        gt = s.tests(lambda c: c.replace(" ", "") == "tds.config.g_scale>0")
+        gt = s.tests("tds.config.g_scale > 0")
         sc = {}
         for tn in gt:
             for n in g.nodes():
@@ -214,7 +214,7 @@ def rule_step(ctx, repo):
               s.W(sets[0]) if sets else s.W())
     # failure exits
     t = [src(g.data(n)["ast"].test) for n in g.nodes() if g.data(n)["kind"] == "test"]
-    ok = any("isnan" in x for x in t) and any("tds.config.max_iter" in x and ">" in x for x in t)
+    ok = any("isnan" in x for x in t) and any("tds.config.max_iter" in x and (">" in x or "<" in x) for x in t)
     ctx.check(ok, "C04.accept", "step/failure-exits", "NaN and iteration-limit exits present",
               "NaN / iteration-limit exit of the Newton loop removed", s.W())
     rets = s.returns()
